@@ -15,6 +15,7 @@ package main
 // byte for byte with a stand-alone decode of the same datagram by the harness.
 
 import (
+	"fmt"
 	"bufio"
 	"bytes"
 	"encoding/json"
@@ -44,19 +45,20 @@ type plDgram struct {
 }
 
 type plJob struct {
-	ID        int       `json:"id"`
-	Proto     string    `json:"proto"`
-	Workers   int       `json:"workers"`
-	Seed      int64     `json:"seed"`
-	UDPSize   int       `json:"udpsize"`
-	Templates []plDgram `json:"templates"` // announced and fully processed first
-	Data      []plDgram `json:"data"`      // then these, interleaved by the scheduler
-	Lazy      int       `json:"lazy"`      // the consumer takes a message with probability 1/Lazy per move
-	Retire    int       `json:"retire"`    // dynamic workers: how many workers are told to quit during the data phase
-	Filter    []uint32  `json:"filter"`    // sflow-type-filter
-	Poison    []int     `json:"poison"`    // what a recycled buffer holds behind the datagram just read: repeated well-formed sets / records
-	Free      bool      `json:"free"`      // no gates: the workers run in parallel as in the collector (used under the race detector)
-	Mirror    string    `json:"mirror"`    // "": mirroring off; "on": enabled, the copies are taken and given back like the mirror workers do; "full": enabled and the mirror queue is full
+	ID        int        `json:"id"`
+	Proto     string     `json:"proto"`
+	Workers   int        `json:"workers"`
+	Seed      int64      `json:"seed"`
+	UDPSize   int        `json:"udpsize"`
+	Templates []plDgram  `json:"templates"` // announced and fully processed first
+	Data      []plDgram  `json:"data"`      // then these, interleaved by the scheduler
+	Lazy      int        `json:"lazy"`      // the consumer takes a message with probability 1/Lazy per move
+	Retire    int        `json:"retire"`    // dynamic workers: how many workers are told to quit during the data phase
+	Filter    []uint32   `json:"filter"`    // sflow-type-filter
+	Scheds    [][]string `json:"scheds"`    // TLC-generated schedules (spec/PipelineSched.tla) to replay one after the other; Data = the model's datagrams
+	Poison    []int      `json:"poison"`    // what a recycled buffer holds behind the datagram just read: repeated well-formed sets / records
+	Free      bool       `json:"free"`      // no gates: the workers run in parallel as in the collector (used under the race detector)
+	Mirror    string     `json:"mirror"`    // "": mirroring off; "on": enabled, the copies are taken and given back like the mirror workers do; "full": enabled and the mirror queue is full
 }
 
 type plEvent struct {
@@ -69,7 +71,18 @@ type plEvent struct {
 	N   int    `json:"n,omitempty"`
 }
 
+// plObs: the abstract state after one move of a replayed schedule
+type plObs struct {
+	Gates    []string `json:"gates"` // per worker 1..W
+	Holds    []int    `json:"holds"` // datagram number a worker holds (0: none)
+	Q        int      `json:"q"`
+	MQ       int      `json:"mq"`
+	Consumed []int    `json:"consumed"` // datagram numbers of the messages the producer took so far, in order
+	Decs     int      `json:"decs"`
+}
+
 type plResult struct {
+	SchedObs [][]plObs `json:"sched_obs,omitempty"`
 	ID       int       `json:"id"`
 	Events   []plEvent `json:"events"`
 	Payloads [][]byte  `json:"payloads"` // consumed, in order
@@ -585,6 +598,74 @@ func plRun(job plJob) (res plResult) {
 		}
 		for consume() {
 		}
+	}
+	if len(job.Scheds) > 0 {
+		// binding A: replay TLC's schedules move by move and report the abstract state after each move; every
+		// schedule ends with all workers at Top and both queues empty, so the next one starts from there
+		byID := func(id int) *plWorker {
+			for _, w := range workers {
+				if w.id == id {
+					return w
+				}
+			}
+			return nil
+		}
+		for _, sched := range job.Scheds {
+			fed := 0
+			var consumed []int
+			dec0 := ad.decoded()
+			var obs []plObs
+			for _, mv := range sched {
+				switch {
+				case mv == "feed":
+					if fed >= len(job.Data) {
+						res.Problem = "schedule feeds more datagrams than the job has"
+						return
+					}
+					feed(job.Data[fed], fed+1)
+					fed++
+				case mv == "consume":
+					select {
+					case p := <-ad.mq:
+						cp := append([]byte{}, p...)
+						res.Payloads = append(res.Payloads, cp)
+						consumed = append(consumed, matchP(cp))
+						ev(plEvent{Ev: "Consume", P: matchP(cp)})
+					default:
+						consumed = append(consumed, 0) // the model says a message is queued; none is
+					}
+				default:
+					id := int(mv[1] - '0')
+					w := byID(id)
+					if w == nil || w.gate == "" {
+						res.Problem = fmt.Sprintf("schedule %v, move %s: the worker is not parked at a hook (observations so far %+v)", sched, mv, obs)
+						return
+					}
+					release(w)
+				}
+				if res.Problem != "" {
+					return
+				}
+				o := plObs{Q: ad.qlen(), MQ: len(ad.mq), Consumed: append([]int{}, consumed...), Decs: int(ad.decoded() - dec0)}
+				for id := 1; id <= job.Workers; id++ {
+					w := byID(id)
+					g, h := "?", 0
+					if w != nil {
+						g = w.gate
+						if g != "Top" {
+							h = w.d
+						}
+					}
+					o.Gates = append(o.Gates, g)
+					o.Holds = append(o.Holds, h)
+				}
+				obs = append(obs, o)
+			}
+			res.SchedObs = append(res.SchedObs, obs)
+			ev(plEvent{Ev: "Reset"})
+		}
+		res.Decoded = ad.decoded()
+		return
 	}
 	// phase 2: data, interleaved
 	next := 0
